@@ -30,6 +30,9 @@ func vXMLScript(script string) io.Reader {
 		case 'X':
 			b.WriteString("<a></b>")
 			damaged = true
+		case 'A':
+			// a strict decoder stops here; the rest of the document is laid out regardless
+			b.WriteString("\n R&D \n")
 		case 'Z':
 			// the underlying (decompressing) reader fails: truncated stream
 			return io.MultiReader(strings.NewReader(b.String()), vFailingReader{})
